@@ -71,25 +71,31 @@ def free_port():
 
 class Server:
     def __init__(self, scratch, index_file, cache=True, preload=False, race=False):
-        self.port = free_port()
-        self.addr = "127.0.0.1:%d" % self.port
-        cmd = [scratch.updog_binary(race=race), "server", "-l", self.addr, "-d", "127.0.0.1:0", "-f", index_file]
-        if not cache:
-            cmd.append("--enable-cache=false")
-        if preload:
-            cmd.append("-p")
-        self.log = open(scratch.path("server-%d.log" % self.port), "wb")
-        self.proc = subprocess.Popen(cmd, cwd=scratch.dir, env=core.GOENV, stdout=self.log, stderr=subprocess.STDOUT)
-        t0 = time.time()
-        while time.time() - t0 < 20:
-            if self.proc.poll() is not None:
+        last = ""
+        for attempt in range(4):        # another process may grab the port between probing and listening
+            self.port = free_port()
+            self.addr = "127.0.0.1:%d" % self.port
+            cmd = [scratch.updog_binary(race=race), "server", "-l", self.addr, "-d", "127.0.0.1:0", "-f", index_file]
+            if not cache:
+                cmd.append("--enable-cache=false")
+            if preload:
+                cmd.append("-p")
+            self.log = open(scratch.path("server-%d.log" % self.port), "wb")
+            self.proc = subprocess.Popen(cmd, cwd=scratch.dir, env=core.GOENV, stdout=self.log, stderr=subprocess.STDOUT)
+            t0 = time.time()
+            while time.time() - t0 < 30:
+                if self.proc.poll() is not None:
+                    break
+                try:
+                    socket.create_connection(("127.0.0.1", self.port), timeout=0.2).close()
+                    return
+                except OSError:
+                    time.sleep(0.05)
+            last = open(self.log.name, "rb").read()[-1500:].decode("utf-8", "replace")
+            self.stop()
+            if "address already in use" not in last:
                 break
-            try:
-                socket.create_connection(("127.0.0.1", self.port), timeout=0.2).close()
-                return
-            except OSError:
-                time.sleep(0.05)
-        raise core.FrameworkError("updog server did not start: %s" % open(self.log.name, "rb").read()[-1500:].decode("utf-8", "replace"))
+        raise core.FrameworkError("updog server did not start: %s" % last)
 
     def alive(self):
         return self.proc.poll() is None
